@@ -187,6 +187,7 @@ class Interp:
         self.np_hooks = {}         # numpy function name -> python callable(args, kwargs)
         self.cond_policy = None      # list of outcomes for opaque conditions (np.isclose ...), None: unsupported
         self.cond_log = []
+        self._masks = {}
 
     # ------------------------------------------------------------------ entry points
     def call_function(self, func, args, kwargs=None, depth=0):
@@ -228,6 +229,18 @@ class Interp:
         self.ev.locals[func.qualname] = env
         return None
 
+    def _run_lambda(self, lam, env, lfunc, depth):
+        """body of a lambda, or of a nested `def` (a closure: same value kind)"""
+        if isinstance(lam, ast.Lambda):
+            return self.eval(lam.body, env, lfunc, depth)
+        try:
+            self.exec_block(lam.body, env, lfunc, depth)
+        except _Return as r:
+            return r.value
+        except _HalfReturn:
+            raise AnalysisError("%s: nested function %s returns in one branch only" % (lfunc.qualname, lam.name))
+        return None
+
     def _noncov(self, item):
         if not self._in_primitive:
             self.ev.noncovariant.append(item)
@@ -257,7 +270,7 @@ class Interp:
                 e2[n] = a
             self._active_lambdas.append(id(lam))
             try:
-                return self.eval(lam.body, e2, lfunc, 1)
+                return self._run_lambda(lam, e2, lfunc, 1)
             finally:
                 self._active_lambdas.pop()
         if callable(f):
@@ -282,6 +295,14 @@ class Interp:
             if isinstance(st.value, ast.Constant):
                 return
             self.eval(st.value, env, func, depth)
+            return
+        if isinstance(st, ast.FunctionDef) and not st.decorator_list and not st.args.vararg and not st.args.kwarg and not st.args.kwonlyargs:
+            # nested function: a closure over the live environment, default values evaluated now
+            names = [a.arg for a in st.args.args]
+            dvals = {}
+            for n, dflt in zip(names[len(names) - len(st.args.defaults):], st.args.defaults):
+                dvals[n] = self.eval(dflt, env, func, depth)
+            env[st.name] = ("lambda", st, env, func, dvals)
             return
         if isinstance(st, ast.Assign):
             self._last_opaque_call = None
@@ -466,6 +487,13 @@ class Interp:
             if isinstance(idx, ElemIndex):
                 self.store_back(target.value, v, env, func, depth)
                 return
+            # masked store  arr[mask] = v : point-wise selection between the new and the old value
+            if self.is_mask(idx) and (self.dom.is_value(cont) or _is_conc(cont)) and self.is_num(v) and not isinstance(v, SArr):
+                self.store_back(target.value, self.dom.where(idx, self.lift(v), self.lift(cont)), env, func, depth)
+                return
+            if _full_slice(idx) and (self.dom.is_value(cont) or _is_conc(cont)) and self.is_num(v) and not isinstance(v, SArr):
+                self.store_back(target.value, self.lift(v), env, func, depth)
+                return
             raise AnalysisError("%s:%d unsupported subscript store %s" % (func.qualname, target.lineno, unparse(target)))
         if isinstance(target, ast.Attribute):
             obj = self.eval(target.value, env, func, depth)
@@ -564,26 +592,39 @@ class Interp:
             return f
         ci = self.p.resolve_class_expr(node, mod)
         if ci is not None:
-            return ObjStub("class " + ci.name, {r: "registry:%s.%s" % (ci.name, r) for c in self.p.mro(ci) for r in c.registries})
-        if node.id in ("abs", "len", "range", "min", "max", "float", "int", "enumerate", "zip", "round", "list", "slice"):
+            o = ObjStub("class " + ci.name, {r: "registry:%s.%s" % (ci.name, r) for c in self.p.mro(ci) for r in c.registries})
+            o.cls = ci
+            return o
+        if node.id in ("abs", "len", "range", "min", "max", "float", "int", "enumerate", "zip", "round", "list", "slice", "getattr", "setattr", "hasattr", "isinstance", "tuple"):
             return ModuleRef("builtin:" + node.id)
         raise AnalysisError("%s:%d unknown name %s" % (func.qualname, node.lineno, node.id))
 
     def e_Attribute(self, node, env, func, depth):
-        obj = self.eval(node.value, env, func, depth)
-        a = node.attr
+        return self._attr_of(self.eval(node.value, env, func, depth), node.attr, func, node, depth)
+
+    def _attr_of(self, obj, a, func, node, depth):
         if isinstance(obj, SelfObj):
             if a in obj.attrs:
                 return obj.attrs[a]
             f = self.p.resolve(obj.cls, a)
             if f is not None:
                 return f if f.is_static else BoundMethod(obj, f)
+            c, expr = self.p.class_attr(obj.cls, a)
+            if expr is not None:
+                return self.eval(expr, {}, func, depth)       # class-level constant / table read through the instance
             raise AnalysisError("%s:%d attribute self.%s unknown to the analysis" % (func.qualname, node.lineno, a))
         if isinstance(obj, ModuleRef):
             return ModuleRef(obj.name + "." + a)
         if isinstance(obj, ObjStub):
             if a in obj.attrs:
                 return obj.attrs[a]
+            if getattr(obj, "cls", None) is not None:
+                c, expr = self.p.class_attr(obj.cls, a)
+                if expr is not None:
+                    return self.eval(expr, {}, func, depth)       # class-level constant / table
+                g = self.p.resolve(obj.cls, a)
+                if g is not None:
+                    return g                                      # Class.method: plain function (explicit self)
             raise AnalysisError("%s:%d attribute %s.%s unknown to the analysis" % (func.qualname, node.lineno, obj.name, a))
         if a == "ndim" and hasattr(obj, "_fd_getitem"):
             return obj.ndim
@@ -659,7 +700,7 @@ class Interp:
             return not t
         if isinstance(node.op, ast.Invert):
             if self.dom.is_value(v):
-                return self.dom.cnot(v)
+                return self._mask(self.dom.cnot(v))
         raise AnalysisError("unsupported unary operator")
 
     def neg(self, v):
@@ -676,10 +717,20 @@ class Interp:
         raise AnalysisError("cannot negate %r" % (v,))
 
     def e_BoolOp(self, node, env, func, depth):
-        vals = [self.eval(v, env, func, depth) for v in node.values]
+        # Python semantics while the operands have a decidable truth value: short circuit, and the
+        # result is the deciding OPERAND (`source or ()`), not its truth value
+        is_and = isinstance(node.op, ast.And)
+        vals = []
+        for i, vn in enumerate(node.values):
+            v = self.eval(vn, env, func, depth)
+            t = self.truth(v)
+            vals.append(v)
+            if t is None:
+                vals.extend(self.eval(x, env, func, depth) for x in node.values[i + 1:])
+                break
+            if t != is_and or i == len(node.values) - 1:
+                return v
         ts = [self.truth(v) for v in vals]
-        if all(t is not None for t in ts):
-            return all(ts) if isinstance(node.op, ast.And) else any(ts)
         acc = None
         for v, t in zip(vals, ts):
             if t is not None:
@@ -712,6 +763,8 @@ class Interp:
             r = (a is b) or (a is None and b is None)
             return r if isinstance(op, ast.Is) else not r
         sym = {ast.Lt: "<", ast.LtE: "<=", ast.Gt: ">", ast.GtE: ">=", ast.Eq: "==", ast.NotEq: "!="}[type(op)]
+        if isinstance(a, bool) and isinstance(b, bool) and sym in ("==", "!="):
+            return (a == b) if sym == "==" else (a != b)
         if _is_conc(a) and _is_conc(b) or isinstance(a, str) or isinstance(b, str) or a is None or b is None:
             if sym == "==":
                 return a == b
@@ -736,8 +789,18 @@ class Interp:
         if self.is_num(a) and self.is_num(b):
             if sym in ("==", "!="):
                 raise AnalysisError("equality comparison of data values unsupported")
-            return self.dom.cmp(sym, self.lift(a), self.lift(b))
+            return self._mask(self.dom.cmp(sym, self.lift(a), self.lift(b)))
         raise AnalysisError("%s:%d unsupported comparison %s" % (func.qualname, node.lineno, unparse(node)))
+
+    def _mask(self, c):
+        """remember that c is the result of a comparison: used as an index it is a boolean mask
+        (a point-wise selection), not a position"""
+        if self.dom.is_value(c):
+            self._masks[id(c)] = c
+        return c
+
+    def is_mask(self, c):
+        return self.dom.is_value(c) and self._masks.get(id(c)) is c
 
     def e_BinOp(self, node, env, func, depth):
         a = self.eval(node.left, env, func, depth)
@@ -822,9 +885,9 @@ class Interp:
         if isinstance(op, ast.Div):
             return d.div(a, b)
         if isinstance(op, ast.BitAnd):
-            return d.cand(a, b)
+            return self._mask(d.cand(a, b))
         if isinstance(op, ast.BitOr):
-            return d.cor(a, b)
+            return self._mask(d.cor(a, b))
         raise AnalysisError("line %d: unsupported operator %s" % (ln, type(op).__name__))
 
     def _as_vec(self, v):
@@ -915,8 +978,8 @@ class Interp:
                 return cont.comps()[idx]
             raise AnalysisError("%s:%d unsupported vector index" % (func.qualname, ln))
         if self.dom.is_value(cont) or _is_conc(cont):
-            if isinstance(idx, ElemIndex) or _full_slice(idx):
-                return cont
+            if isinstance(idx, ElemIndex) or _full_slice(idx) or self.is_mask(idx):
+                return cont          # x[mask]: the selected entries, position by position
             self.ev.neighbour_access.append((ln, unparse(node)))
             raise AnalysisError("%s:%d non point-wise access %s" % (func.qualname, ln, unparse(node)))
         raise AnalysisError("%s:%d unsupported subscript %s" % (func.qualname, ln, unparse(node)))
@@ -1001,7 +1064,7 @@ class Interp:
                     raise AnalysisError("%s:%d missing lambda argument %s" % (func.qualname, ln, n))
             self._active_lambdas.append(id(lam))
             try:
-                return self.eval(lam.body, e2, lfunc, depth + 1)
+                return self._run_lambda(lam, e2, lfunc, depth + 1)
             finally:
                 self._active_lambdas.pop()
         if isinstance(f, ModuleRef):
@@ -1053,6 +1116,24 @@ class Interp:
                 return self.np_hooks["builtin:" + base](args, kwargs)
             if base == "list" and isinstance(args[0], (list, tuple)):
                 return list(args[0])
+            if base == "tuple" and isinstance(args[0], (list, tuple)):
+                return tuple(args[0])
+            if base in ("getattr", "hasattr", "setattr") and len(args) >= 2 and isinstance(args[1], str) and isinstance(args[0], (SelfObj, ObjStub)):
+                fake = ast.copy_location(ast.Attribute(value=node.args[0], attr=args[1], ctx=ast.Load()), node)
+                if base == "setattr":
+                    if not isinstance(args[0], SelfObj) or len(args) != 3:
+                        raise AnalysisError("%s:%d unsupported setattr" % (func.qualname, ln))
+                    v = args[2] if self.on_setattr is None else self.on_setattr(args[0], args[1], args[2])
+                    args[0].attrs[args[1]] = v
+                    return None
+                try:
+                    return self._attr_of(args[0], args[1], func, node, 0) if base == "getattr" else (self._attr_of(args[0], args[1], func, node, 0) is not None or True)
+                except AnalysisError:
+                    if base == "hasattr":
+                        return False
+                    if len(args) == 3:
+                        return args[2]
+                    raise
             raise AnalysisError("%s:%d unsupported builtin %s" % (func.qualname, ln, base))
         if not name.startswith("np"):
             if any(name.startswith(m) for m in self.opaque_modules):
@@ -1085,6 +1166,15 @@ class Interp:
             return d.unknown_cond()
         if base in NP_UNARY:
             return self.unary(base, args[0], ln)
+        if base == "negative" and len(args) == 1:
+            r = self.neg(args[0])
+            out = kwargs.get("out")
+            if out is not None:
+                if out is args[0] and isinstance(out, Vec) and isinstance(r, Vec):
+                    out.x, out.y = r.x, r.y          # in place on the vector object
+                    return out
+                raise AnalysisError("%s:%d np.negative(..., out=) on an unsupported operand" % (func.qualname, ln))
+            return r
         if base in ("minimum", "maximum"):
             return self.binary(base, args[0], args[1], ln)
         if base == "where" and any(isinstance(x, SArr) for x in args):
@@ -1137,6 +1227,8 @@ class Interp:
             return Vec(self.dom.const(0), self.dom.const(0))
         if base in ("zeros", "zeros_like"):
             return 0
+        if base in ("asarray", "asanyarray", "ascontiguousarray") and len(args) == 1 and (self.is_num(args[0]) or isinstance(args[0], Vec)):
+            return args[0]
         if base == "sum":
             if isinstance(args[0], Vec) and kwargs.get("axis", None) == 0:
                 return d.add(args[0].x, args[0].y)
